@@ -6,3 +6,5 @@ pub mod derive;
 pub mod typecompat;
 pub mod retry;
 pub mod specexec;
+pub mod tablets;
+pub mod streams;
